@@ -954,12 +954,15 @@ impl NameResolution {
             } => {
                 let new_value = self.resolve_expr(value, env, ctx, hir_table);
                 let new_pat = self.resolve_pat(pat, env, ctx, hir_table);
+                let new_annotation = annotation.as_ref().map(|t| {
+                    self.lower_type_expr(t, &HashSet::new(), ctx.current_package, ctx.imports)
+                });
                 self.alloc_expr_with_ptr(
                     hir_table,
                     *astptr,
                     hir::Expr::ELet {
                         pat: new_pat,
-                        annotation: annotation.as_ref().map(|t| t.into()),
+                        annotation: new_annotation,
                         value: new_value,
                     },
                 )
